@@ -518,6 +518,40 @@ impl Interp {
                     )],
                 ])
             }
+            Rel::MemberRev => {
+                // memberrev(x, l): conde { |h, t| { l == [h | t], memberrev(x, t) }, |t| { l == [x | t] } }
+                let (h, t, t2) = (v(self), v(self), v(self));
+                Goal::Conde(vec![
+                    vec![Goal::Fresh(ids(&[&h, &t]), vec![Goal::Eq(a[1].clone(), Term::cons(h.clone(), t.clone())), Goal::Call(Rel::MemberRev, vec![a[0].clone(), t.clone()])])],
+                    vec![Goal::Fresh(ids(&[&t2]), vec![Goal::Eq(a[1].clone(), Term::cons(a[0].clone(), t2.clone()))])],
+                ])
+            }
+            Rel::Zeros => {
+                // zeros(l): conde { l == [], |h, t| { l == [h | t], zeros(t), h == 0 } }
+                let (h, t) = (v(self), v(self));
+                Goal::Conde(vec![
+                    vec![Goal::Eq(a[0].clone(), Term::Nil)],
+                    vec![Goal::Fresh(
+                        ids(&[&h, &t]),
+                        vec![Goal::Eq(a[0].clone(), Term::cons(h.clone(), t.clone())), Goal::Call(Rel::Zeros, vec![t.clone()]), Goal::Eq(h.clone(), Term::Int(0))],
+                    )],
+                ])
+            }
+            Rel::Nrev => {
+                // nrev(l, r): conde { [l == [], r == []], |h, t, rt| { l == [h | t], nrev(t, rt), append(rt, [h], r) } }
+                let (h, t, rt) = (v(self), v(self), v(self));
+                Goal::Conde(vec![
+                    vec![Goal::Eq(a[0].clone(), Term::Nil), Goal::Eq(a[1].clone(), Term::Nil)],
+                    vec![Goal::Fresh(
+                        ids(&[&h, &t, &rt]),
+                        vec![
+                            Goal::Eq(a[0].clone(), Term::cons(h.clone(), t.clone())),
+                            Goal::Call(Rel::Nrev, vec![t.clone(), rt.clone()]),
+                            Goal::Call(Rel::Append, vec![rt.clone(), Term::list(vec![h.clone()]), a[1].clone()]),
+                        ],
+                    )],
+                ])
+            }
             Rel::Diverge => {
                 if self.set_mode {
                     Goal::Fail
